@@ -75,6 +75,13 @@ CHECKS = {
         note="Depth <= 3, one import level; the prefix-of-a-dotted-path case the property leaves open is avoided. My own resolver is encoded in the variant generator.",
         design="6/C11",
     ),
+    "C20": dict(
+        category="other",
+        technique="symbolic execution of the real grammar actions and linter on synthetic tokens with symbolic line/offset/column (z3 Int); differential render-before/after-lint; exit logic for all warning counts",
+        text="Kernel: (a) every definition kind and references at depth <= 2 are parsed from synthetic tokens whose line numbers, line-start offsets and columns are z3 integers; z3 proves lineno/1-based column of each name, brace positions, indent == column offset, the indent rule silent at 4*depth and firing on a wrong positive indent, and the enum-zero rule <=> no member is 0; (b) warnings of name-perturbed schemas cite file and line under enumerated layouts through the real lexer; (c) check-only mode calls fatal <=> parse error or (lint enabled and count > 0) for every count; (d) rendering before and after lint() is identical for all values of 4 templates.",
+        note="Naming rules themselves (case converters, regexes) are outside; runs of blank lines are abstracted by one NEWLINE token (p_newline is idempotent); 1-based columns are the convention the language server documents.",
+        design="6/C20",
+    ),
 }
 
 NOT_APPLICABLE = {
@@ -118,7 +125,7 @@ def main():
             "add_only": True,
         },
         "engines": [
-            {"name": "pysym", "path": "vlib/pysym.py", "serves_properties": ["C01", "C02", "C05", "C07", "C08", "C09", "C11", "C12", "C13", "C14"], "kind_free_text": "DART-style symbolic execution of the real Python sources with z3 proxies (BV-192 / Int)"},
+            {"name": "pysym", "path": "vlib/pysym.py", "serves_properties": ["C01", "C02", "C05", "C07", "C08", "C09", "C11", "C12", "C13", "C14", "C20"], "kind_free_text": "DART-style symbolic execution of the real Python sources with z3 proxies (BV-192 / Int)"},
         ],
         "checks": checks,
         "not_applicable": na,
